@@ -322,7 +322,8 @@ impl MqttState {
             if let Some(topic) = self.topic_alises.get(&alias) {
                 topic.clone_into(&mut publish.topic);
             } else {
-                self.handle_protocol_error()?;
+                // unknown topic alias: protocol error, the DISCONNECT has to go out
+                return self.handle_protocol_error();
             };
         }
 
